@@ -119,7 +119,21 @@ def _offset_variants(ctx, payload: bytes, chars: Optional[int] = None) -> Any:
     class SigmaValueError(Exception):
         def __init__(self, *a, **k): super().__init__(*a)
 
+    class _Part(str):     # a part whose UTF-8 form is the given payload (for payloads that are no UTF-8 text)
+        def encode(self, *a, **k): return payload
+
+    def _parts():
+        # the parts of the stand-in value: several plain parts (as the utf16 modifier builds them: BOM + text) whose joined UTF-8
+        # form is the payload
+        try:
+            text = payload.decode("utf-8")
+        except UnicodeDecodeError:
+            return [_Part(payload.decode("utf-8", "replace"))]
+        return [text[:1], text[1:]] if len(text) >= 2 else [text] if text else []
+
     class _Val:
+        s = property(lambda self_: _parts())
+        def __iter__(self): return iter(_parts())
         def __bytes__(self): return payload
         def __len__(self): return len(payload) if chars is None else chars
         def __str__(self): return payload.decode("utf-8", "replace")
